@@ -76,14 +76,16 @@ PROPS["C20"] = {
     "level": "fault_enumeration",
     "exhaustive_when_all": True,
     "exhaustive_tests": ["TestC20Exhaustive"],
-    "assumptions": ["read outcomes are the bare values gopacket's afpacket returns (syscall.Errno, io errors, a net.Error for timeouts)",
+    "assumptions": ["read outcomes are the values gopacket's afpacket returns (syscall.Errno, io errors, a net.Error for timeouts); would-block and connection-reset also wrapped as package net and %w do (sx recognises them with errors.Is); terminal errors bare only",
                     "cancellation is injected synchronously inside a read call; one further read after it is tolerated",
                     "io.ErrNoProgress / io.ErrShortBuffer are not generated (the statement leaves them open)"],
     "units": [{
         "pkg": "pkg/packet",
         "tests": [T("TestC20Exhaustive", {"checks": 1, "env": {"C20_LEN": 3}}, {"checks": 1, "env": {"C20_LEN": 5}, "timeout": 3000}),
                   T("TestC20Random", {"checks": 600, "shards": 4, "env": {"C20_MAXU": 10}},
-                    {"checks": 10000, "shards": 16, "env": {"C20_MAXU": 40}})],
+                    {"checks": 10000, "shards": 16, "env": {"C20_MAXU": 40}})] + [
+                  {"name": "TestC20Long", "variant": "long%d" % i, "quick": {"checks": 1, "env": {"C20_LONG": i}},
+                   "thorough": {"checks": 6, "env": {"C20_LONG": i}}} for i in range(2)],
     }, {
         "pkg": "pkg/packet", "fuzz": True, "thorough_only": True,
         "tests": [F("FuzzC20Script", "90s")],
